@@ -210,6 +210,22 @@ GEN = obj(
     texpr="G[int]",
 )
 GEN_SRC = "T = TypeVar('T')"
+GENTD = obj(
+    "GT",
+    F("x", INT, texpr="T"),
+    F("y", STR),
+    kind="typeddict",
+    raw_src="class GT(TypedDict, Generic[T]):\n    x: T\n    y: str\n",
+    texpr="GT[int]",
+)
+GENNT = obj(
+    "GN",
+    F("x", INT, texpr="T"),
+    F("y", STR, default=V("'d'")),
+    kind="namedtuple",
+    raw_src="class GN(NamedTuple, Generic[T]):\n    x: T\n    y: str = 'd'\n",
+    texpr="GN[int]",
+)
 # generic inheritance whose parameter order differs from the order of appearance in the bases
 GEN2_SRC = """
 T = TypeVar('T')
@@ -319,6 +335,12 @@ OBJECTS: Dict[str, Tuple[Sp, str]] = {
     "TDNest": (TDNEST, ""),
     "TDSkip": (obj("TDk", F("a", INT), F("d", INT, skip=("deserialization",)), kind="typeddict", total=False), ""),
     "NTSkip": (obj("NTk", F("a", INT), F("b", INT, default=V("3"), skip=("deserialization",)), kind="namedtuple"), ""),
+    # `required` given through Annotated on an otherwise optional TypedDict key / NamedTuple field
+    "TDReq": (obj("TDq", F("a", INT, required_md=True), F("b", STR), kind="typeddict", total=False), ""),
+    "NTReq": (obj("NTq", F("a", INT), F("b", INT, default=V("3"), required_md=True), kind="namedtuple"), ""),
+    # generic NamedTuple (Python >= 3.11)
+    "GenericNT": (GENNT, GEN_SRC),
+    "GenericTD": (GENTD, GEN_SRC),
     "FlatMap": (FLATMAP, ""),
     "Aliased": (ALIASED, ""),
     "Generic": (GEN, GEN_SRC),
